@@ -167,7 +167,12 @@ def build_df(case) -> pd.DataFrame:
             data[c] = pd.Series([float("nan") if v is None else v for v in vals], dtype=object)
         else:
             data[c] = pd.Series(list(vals), dtype=dt)
-    return pd.DataFrame(data, columns=list(case["cols"]))
+    df = pd.DataFrame(data, columns=list(case["cols"]))
+    ix = case.get("index")
+    if ix is not None and len(ix) == len(df):
+        # a table that is the result of a selection / sort / concat keeps its old row labels
+        df.index = pd.Index(list(ix))
+    return df
 
 
 def _nm_cols(nm) -> list[str]:
@@ -876,7 +881,22 @@ def gen_table(rng: random.Random, kind: str, intensify: bool = False) -> dict:
         rng.shuffle(perm)
     case = {"kind": kind, "cols": [c for c, _, _ in cols], "dtypes": [d for _, d, _ in cols],
             "values": [[vals[i] for i in perm] for _, _, vals in cols], "nm": nm}
+    # row labels of the DataFrame: default RangeIndex, or what a boolean-mask selection, a sort or
+    # a concat leaves behind (gaps, a permutation, an offset, repeated labels)
+    r = rng.random()
+    if n and r < 0.35:
+        style = rng.choice(["gaps", "perm", "offset", "repeat"])
+        if style == "gaps":
+            case["index"] = sorted(rng.sample(range(3 * n + 2), n))
+        elif style == "perm":
+            case["index"] = rng.sample(range(n), n)
+        elif style == "offset":
+            o = rng.randint(1, 50)
+            case["index"] = list(range(o, o + n))
+        else:
+            case["index"] = [rng.randrange(max(1, n // 2)) for _ in range(n)]
     case["_tags"] = {"ids": id_kind, "enc": enc, "renamed_ids": renamed_ids, "nd": nd, "n": n,
+                     "index": "default" if "index" not in case else "custom",
                      "links": sum(1 for p in parent if p is not None),
                      "list_keys": sum(1 for v in nm.values() if isinstance(v, list)) - 1,
                      "malformation": "none", "tl": tl, "division": has_div}
